@@ -26,6 +26,10 @@ type Val struct {
 	Content string     // stream error condition content
 
 	Payload []*PNode // application payload (stanzas: children; errors: application condition)
+	// PayForm: how the payload's token reader behaves: "" the tokens stay valid,
+	// "scratch" each token is only valid until the next one is asked for (as
+	// with an *xml.Decoder).
+	PayForm string
 	ErrVal  *Val     // for stanzas: the stanza error used with the Error helper
 
 	// Hostile values contain characters XML cannot represent (NUL, U+FFFE,
@@ -329,6 +333,9 @@ func genStreamError(r *rand.Rand, hostile bool) Val {
 	}
 	if r.Intn(3) == 0 {
 		v.Payload = []*PNode{genPNode(r, 1, hostile)}
+		if r.Intn(2) == 0 {
+			v.PayForm = "scratch"
+		}
 	}
 	return v
 }
